@@ -4,6 +4,7 @@ package c05
 import (
 	"bytes"
 	"fmt"
+	"os"
 	"strings"
 
 	"go.pennock.tech/tabular/csv"
@@ -24,6 +25,9 @@ type Case struct {
 	// Pre > 0: the wrapper is created and the table rendered once (through it and through csv.Render) after Pre-1
 	// operations, while the table is still being built; the checked render goes through that same wrapper.
 	Pre int `json:"pre,omitempty"`
+	// File: the checked output is (also) written with RenderTo into a file that already holds a line of text
+	// (a seekable writer that is not at its beginning): what is appended there is the same CSV
+	File bool `json:"file,omitempty"`
 }
 
 type halfWriter struct {
@@ -121,6 +125,23 @@ func CheckCase(c Case) *ev.Violation {
 	var b bytes.Buffer
 	if err := w.RenderTo(&b); err != nil || b.String() != out {
 		return ev.V("RenderTo wrote %q (err %v), Render returned %q", b.String(), err, out)
+	}
+	if c.File {
+		f, ferr := os.CreateTemp("", "verif-c05-*.csv")
+		if ferr != nil {
+			return nil // no scratch file, nothing to check
+		}
+		defer os.Remove(f.Name())
+		defer f.Close()
+		const preamble = "# written earlier\n"
+		f.WriteString(preamble)
+		if err := w.RenderTo(f); err != nil {
+			return ev.V("RenderTo into a file that already holds a line failed: %v", err)
+		}
+		back, _ := os.ReadFile(f.Name())
+		if string(back) != preamble+out {
+			return ev.V("RenderTo into a file that already holds a line appended %q, Render returned %q", strings.TrimPrefix(string(back), preamble), out)
+		}
 	}
 	if out2, err := csv.Render(t); err != nil || out2 != out {
 		return ev.V("csv.Render gave %q (err %v), wrapper Render %q", out2, err, out)
